@@ -146,3 +146,28 @@ pub fn rlp_peek(b: &[u8]) -> Option<(bool, usize, usize)> {
         }
     }
 }
+
+/// Byte strings mined from the source of the crate under test (string literals): keys the code
+/// mentions by name are keys it may treat specially.  The orchestrator writes them, one hex string
+/// per line, into the file named by VERIF_EXTRA_KEYS.
+pub fn mined_keys() -> &'static Vec<Vec<u8>> {
+    static K: std::sync::OnceLock<Vec<Vec<u8>>> = std::sync::OnceLock::new();
+    K.get_or_init(|| {
+        let mut v: Vec<Vec<u8>> = Vec::new();
+        if let Ok(p) = std::env::var("VERIF_EXTRA_KEYS") {
+            if let Ok(t) = std::fs::read_to_string(p) {
+                for l in t.lines() {
+                    let l = l.trim();
+                    if !l.is_empty() {
+                        if let Ok(b) = hex::decode(l) {
+                            v.push(b);
+                        }
+                    }
+                }
+            }
+        }
+        v.sort();
+        v.dedup();
+        v
+    })
+}
